@@ -100,6 +100,12 @@ def get_checkpoint_dict(agent: SelfEvolvableAlgorithm) -> Dict[str, Any]:
     """
     attribute_dict = EvolvableAlgorithm.inspect_attributes(agent)
 
+    # Plain torch modules held as attributes (e.g. the bandits' `exp_layer`) are views on the
+    # evolvable networks that the mutation hooks re-create; a pickled copy would detach them
+    attribute_dict = {
+        k: v for k, v in attribute_dict.items() if not isinstance(v, torch.nn.Module)
+    }
+
     # Extract info on evolvable modules and optimizers in the algorithm
     network_info: Dict[str, Dict[str, Any]] = {"modules": {}, "optimizers": {}}
     for attr in agent.evolvable_attributes():
